@@ -147,7 +147,7 @@ impl Scenario for ChaosCli {
                         };
                         out.violate(&class, format!("`{}` exited with status {} on a hostile workspace; stderr: {}", argv[..2].join(" "), code, super::batch::clip(&se, 500)));
                     }
-                    if argv.contains(&"json") && serde_json::from_str::<Value>(&so).is_err() {
+                    if (code == 0 || code == 1) && argv.contains(&"json") && serde_json::from_str::<Value>(&so).is_err() {
                         out.violate("cli-json-invalid", format!("json output does not parse: {:?}", super::batch::clip(&so, 300)));
                     }
                 }
